@@ -141,6 +141,9 @@ func (in *Interp) lookupIntrinsic(fn *ssa.Function) intrinsic {
 	if h := templateIntrinsic(fn); h != nil {
 		return h
 	}
+	if h, ok := unisegIntrinsics[fn.String()]; ok {
+		return h
+	}
 	if fn.Pkg != nil && fn.Name() != "init" {
 		pp := fn.Pkg.Pkg.Path()
 		if pp == "reflect" || pp == "internal/reflectlite" || pp == "unsafe" || strings.HasPrefix(pp, "github.com/") || pp == "os" || pp == "runtime" || pp == "syscall" || pp == "time" {
